@@ -332,7 +332,7 @@ def evaluate(ctx, r, meta, variant, drv, stats, accept_cache):
     name = r.name
     replay = dict(case=name, variant=variant, lines=meta["lines"], out=r.lines[:400])
     if r.f25:
-        ctx.fail(dict(kind="resize-not-performed", stage=r.f25.split("stage=")[1]), dict(replay, marker=r.f25),
+        ctx.fail(dict(kind="resize-not-performed"), dict(replay, marker=r.f25),
                  "file growth acknowledged by the log listener but never performed (%s)" % r.f25)
         return
     if r.hang:
@@ -442,7 +442,7 @@ def run(ctx):
     if ctx.tier == "quick":
         explore(ctx, hs, drv, 500, 200, "main", stats)
     else:
-        explore(ctx, hs, drv, 1200, 500, "main", stats)
+        explore(ctx, hs, drv, 3000, 1200, "main", stats)
     if ctx.proof_broken or ctx.corr_broken:
         ctx.log("obligation or correspondence broken: widening the search for a failing input")
         for i in range(3):
